@@ -154,6 +154,8 @@ def classify(cls, reader, writer, data: bytes, kind: str, chunks, budget, ok_exc
         return f"raised-base:{type(e).__name__}", "bad"
     if not isinstance(val, cls):
         return f"returned-non-entity:{type(val).__name__}", "bad"
+    if kind == "bytesio" and src.tell() > len(data):
+        return "consumed-more-bytes-than-given", "bad"
     sink = streams.SimSink()
     try:
         writer(sink, val)
@@ -370,6 +372,12 @@ def finalize(stats, tier, runs, distinct, samples, wall):
         "RLIMIT_AS of the workers is 10 GiB so that a single 2 GiB request caused by a hostile length does not by itself raise MemoryError, while pre-allocation proportional to a hostile count does",
     ]
     problems = []
+    n_ok, n_bad = stats.get("instances", 0), stats.get("discarded_by_prepass", 0)
+    if n_bad > n_ok:
+        problems.append(f"FATAL: {n_bad} of {n_ok + n_bad} generated instances did not survive the clean encode/decode pre-pass "
+                        "(round-trip identity, property C01, is broken on this tree; this check cannot judge it)")
+    elif n_bad:
+        problems.append(f"{n_bad} generated instances discarded by the clean pre-pass")
     for op in FAULT_OPS:
         if not stats.get(f"fault_{op}"):
             problems.append(f"fault kind {op} never fired")
